@@ -44,7 +44,12 @@ def run(res, tier, seed, driver_ok):
         stats['modes'][mode] = stats['modes'].get(mode, 0) + 1
         try:
             with contextlib.redirect_stdout(io.StringIO()):
-                sp, g = sph.build(rnd, base6=base6 if mode == 'plain' else None)
+                geo = None
+                if rnd.random() < 0.3:      # squat platforms: small top plate, short legs - the neutral height is close to the minimum leg length
+                    geo = sph.geometry(rnd)
+                    geo['rt'] = geo['rb'] * rnd.uniform(0.3, 0.4); geo['lmin'] = geo['rb'] * rnd.uniform(0.8, 0.9); geo['lmax'] = geo['lmin'] * rnd.uniform(1.5, 2.0)
+                    geo['bspace'] = rnd.uniform(5, 15); geo['tspace'] = rnd.uniform(5, 15)
+                sp, g = sph.build(rnd, g=geo, base6=base6 if mode == 'plain' else None)
                 spin = None
                 if mode in ('spun', 'spun_moved'):
                     spin = rnd.uniform(-3.1, 3.1)
@@ -61,6 +66,8 @@ def run(res, tier, seed, driver_ok):
         inp0 = {'geometry': g, 'mode': mode, 'base6': base6, 'spin': spin, 'case': n_, 'seed': seed}
         for t_ in range(3):
             rel = sph.rel_pose(rnd, h)
+            if t_ == 2:
+                rel[2] = h * (1 - rnd.uniform(0.08, 0.15))     # the low end of the height range
             Tb = sp.getBottomT().gTM().copy()
             Tt = Tb @ sph.T6(rel)
             inp = dict(inp0); inp['rel_pose'] = list(rel)
@@ -104,6 +111,11 @@ def run(res, tier, seed, driver_ok):
                 a, it = fmr.SPFKinSpaceR(L.copy(), att.copy(), sp._bottom_joints_init, sp._top_joints_init, sp._max_iterations, sp._tol_f, sp._tol_a, sp.leg_ext_min)
                 lines.append('sp.raph ' + ' '.join(C.f2h(x) for x in list(L) + list(att) + legs + [sp._max_iterations, sp._tol_f, sp._tol_a, sp.leg_ext_min]))
                 expect.append(('raph', (np.array(a, dtype=float).copy(), int(it)), inp))
+                # a second start below the height floor, so that the clamp at leg_ext_min/2 is exercised on every run
+                att2 = np.array([rnd.uniform(-0.1, 0.1) * h, rnd.uniform(-0.1, 0.1) * h, rnd.uniform(0.05, 0.95) * sp.leg_ext_min, 0.0, 0.0, rnd.uniform(-0.2, 0.2)], dtype=float)
+                a2, it2 = fmr.SPFKinSpaceR(L.copy(), att2.copy(), sp._bottom_joints_init, sp._top_joints_init, 60, sp._tol_f, sp._tol_a, sp.leg_ext_min)
+                lines.append('sp.raph ' + ' '.join(C.f2h(x) for x in list(L) + list(att2) + legs + [60, sp._tol_f, sp._tol_a, sp.leg_ext_min]))
+                expect.append(('raph', (np.array(a2, dtype=float).copy(), int(it2)), dict(inp, start=list(att2))))
             except Exception as e:
                 bad('raises:SPFKinSpaceR:%s' % type(e).__name__, 'the FK kernel raised on in-workspace lengths', inp, repr(e)[:200])
             for fk_mode in (0, 1):
